@@ -159,7 +159,10 @@ int main(int argc, char** argv) {
             double bbd = 0; for (int a = 0; a < 6; a++) bbd = std::max(bbd, std::abs(wb[a] - bb[a]));
             const double vrel = std::abs(std::abs(v6) - std::abs(vol6)) / std::abs(vol6);
             o.key("outward").b(v6 > 0).key("vol_close").b(vrel <= C["vtol"].d()).key("bbox_close").b(bbd <= C["btol"].d() * g_lmin + 1e-9 * size).key("on_surface").b(worst <= C["stol"].d() * g_lmin + 1e-9 * size);
-            o.key("reported_vol_ok").b(std::abs(c.get_volume() - std::abs(v6) / 6.) <= 1e-9 * std::abs(v6));
+            // both values come from origin-based sums a.(b x c): their rounding error grows like eps * (distance from the origin / size)^3
+            double far = 0; for (int a = 0; a < 6; a++) far = std::max(far, std::abs(wb[a]));
+            const double vol_tol = 1e-9 + 1e-14 * std::pow(far / size + 1., 3);
+            o.key("reported_vol_ok").b(std::abs(c.get_volume() - std::abs(v6) / 6.) <= vol_tol * std::abs(v6) / 6.);
             char buf[160]; snprintf(buf, sizeof buf, "vol_rel %.3e bbox_dev/lmin %.3e surf_dev/size %.3e nodes %zu", vrel, bbd / g_lmin, worst / size, c.get_nb_of_nodes());
             o.key("num").str(buf);
         }
